@@ -27,7 +27,7 @@ import (
 type c15Q map[string]bool
 
 var c15Quirks = map[string][]string{
-	"rename_object":     {"rename_object/ref-match-case-sensitive", "rename_object/refs-outside-visitor-positions", "rename_object/collision-overwrites"},
+	"rename_object":     {"rename_object/from-differs-in-case", "rename_object/refs-outside-visitor-positions", "rename_object/collision-overwrites"},
 	"add_object":        {"add_object/overwrites-existing"},
 	"duplicate_object":  {"duplicate_object/source-exact-match", "duplicate_object/overwrites-existing"},
 	"retype_object":     {"seq/as-value-shared"},
@@ -399,7 +399,7 @@ func c15SpecStep(st *c15Step, ss ast.Schemas, q c15Q, touched map[string]bool) s
 		all := !q["rename_object/refs-outside-visitor-positions"]
 		forTypes(all, func(t *ast.Type) {
 			hit := func(p, n string) bool {
-				if q["rename_object/ref-match-case-sensitive"] {
+				if q["rename_object/from-differs-in-case"] {
 					return p == pkg && n == obj
 				}
 				return p == pkg && renamed[n]
